@@ -149,7 +149,6 @@ func fieldValue(v reflect.Value, i int) reflect.Value {
 	return reflect.NewAt(f.Type(), unsafe.Pointer(f.UnsafeAddr())).Elem()
 }
 
-
 // FieldDigests digests every field of the struct behind p separately, so that
 // a purity violation can say which field changed.
 func FieldDigests(p any) map[string]string {
